@@ -1,37 +1,37 @@
 package main
 
 import (
-	"go/types"
-	"sync"
-	"sync/atomic"
 	"fmt"
 	"go/token"
+	"go/types"
 	"sort"
 	"strings"
+	"sync"
+	"sync/atomic"
 	"time"
 
 	"golang.org/x/tools/go/ssa"
 )
 
 type Config struct {
-	K             int
-	Fine          bool
-	MaxSteps      int
-	MaxPaths      int
-	MaxDepth      int
-	MaxAlloc      int
-	MaxThreads    int
-	MaxConcretize int
-	MapOrders     bool
-	QueryTimeout  int // ms
-	Solver        string
-	Seed          int
-	Deadline      time.Time
-	MaxViolations int
+	K               int
+	Fine            bool
+	MaxSteps        int
+	MaxPaths        int
+	MaxDepth        int
+	MaxAlloc        int
+	MaxThreads      int
+	MaxConcretize   int
+	MapOrders       bool
+	QueryTimeout    int // ms
+	Solver          string
+	Seed            int
+	Deadline        time.Time
+	MaxViolations   int
 	StopOnViolation bool
-	Workers       int
-	Dedup         bool
-	Race          bool
+	Workers         int
+	Dedup           bool
+	Race            bool
 }
 
 func DefaultConfig() Config {
@@ -40,17 +40,17 @@ func DefaultConfig() Config {
 }
 
 type Violation struct {
-	Kind   string            `json:"kind"` // assert | panic | deadlock
-	Label  string            `json:"label"`
-	Pos    string            `json:"pos"`
-	Model  map[string]uint64 `json:"model"`
-	Tags   []string          `json:"tags"`
-	Trace  []SchedEvent      `json:"trace,omitempty"`
-	Notes  []string          `json:"notes,omitempty"`
-	Stack  string            `json:"stack,omitempty"`
-	Known  string            `json:"known,omitempty"`
-	Replay string            `json:"replay,omitempty"`
-	Confirmed bool           `json:"confirmed"`
+	Kind      string            `json:"kind"` // assert | panic | deadlock
+	Label     string            `json:"label"`
+	Pos       string            `json:"pos"`
+	Model     map[string]uint64 `json:"model"`
+	Tags      []string          `json:"tags"`
+	Trace     []SchedEvent      `json:"trace,omitempty"`
+	Notes     []string          `json:"notes,omitempty"`
+	Stack     string            `json:"stack,omitempty"`
+	Known     string            `json:"known,omitempty"`
+	Replay    string            `json:"replay,omitempty"`
+	Confirmed bool              `json:"confirmed"`
 }
 
 type CoverHit struct {
